@@ -97,11 +97,28 @@ def case_strategy(draw, tier):
         # how the tree got its comments: handed to the constructor, or appended to a tree built without any - after another
         # comment-less tree (a decoy) was annotated in the same way
         "comments_via": draw(st.sampled_from(["constructor", "constructor", "appended"])),
+        # the tree was already written once (in some form) with other coordinates and radii, and was then edited in place
+        # (whole columns, slices, or node by node through handles) before the write that is judged
+        "written_before": draw(st.sampled_from([None, None, "text", "path", "text-twice"])),
+        "edit_via": draw(st.sampled_from(["column", "slices", "handles"])),
+        # a stream handed over positioned at the start of the SWC text, with other material before that position
+        "preamble": draw(st.sampled_from([None, None, None, "# banner of a container file\nnot a row at all\n",
+                                          "1 1 9 9 9 9 -1\n2 3 8 8 8 8 1\n", "\n\n#\n"])),
     }
 
 
-def _open(text_or_none, kind, ctx, tree, kw, name, encoding="utf-8"):
+def _open(text_or_none, kind, ctx, tree, kw, name, encoding="utf-8", preamble=None):
     """Write with the requested source kind and return (something from_swc can read, the written text, read options)."""
+    if preamble and kind != "path" and encoding == "utf-8":
+        text = tree.to_swc(**kw)
+        ctx.cls("stream-positioned-after-a-preamble")
+        if kind == "str":
+            f = io.StringIO(preamble + text)
+            f.seek(len(preamble))  # StringIO positions count characters
+        else:
+            f = io.BytesIO((preamble + text).encode("utf-8"))
+            f.seek(len(preamble.encode("utf-8")))
+        return f, text, {}
     if kind == "path":
         path = os.path.join(ctx.tmpdir, name)
         ret = tree.to_swc(path, **kw)
@@ -143,6 +160,30 @@ def run_case(case, ctx):
         ctx.cls("comments-appended-after-construction")
     else:
         tree = gen_tree.build_tree(t, extras=False, source=case["tree_source"], comments=list(case["comments"]))
+    if case.get("written_before") and n <= 400:
+        # what is judged below is the text of the tree as it is *now*: built with other numbers, written, then edited
+        earlier = {c: [float(np.float32(v) * np.float32(0.5) + np.float32(1.25)) if np.isfinite(np.float32(v) * np.float32(0.5)) else 0.0
+                       for v in t[c]] for c in "xyzr"}
+        for c in "xyzr":
+            tree.get_ndata(c)[:] = np.array(earlier[c], dtype=np.float32)
+        how = case["written_before"]
+        for _ in range(2 if how == "text-twice" else 1):
+            if how == "path":
+                tree.to_swc(os.path.join(ctx.tmpdir, "earlier.swc"))
+            else:
+                tree.to_swc()
+        for c in "xyzr":
+            target = np.array(t[c], dtype=np.float32)
+            if case["edit_via"] == "column":
+                tree.get_ndata(c)[:] = target
+            elif case["edit_via"] == "slices":
+                h = n // 2
+                tree.get_ndata(c)[:h] = target[:h]
+                tree.ndata[c][h:] = target[h:]
+            else:
+                for i in range(n):
+                    setattr(tree.node(i) if i % 2 else tree[i], c, target[i])
+        ctx.cls("written-before-then-edited-in-place")
     id_offset = case["id_offset"] if case["id_offset"] != "max" else 2 ** 31 - 1 - n
     case = dict(case, id_offset=id_offset)
     kw = {"id_offset": id_offset, "source": case["source"], "comments": case["comments_on"]}
@@ -168,7 +209,7 @@ def run_case(case, ctx):
                    (case["id_offset"] != 1 or (case["comments_on"] and case["comments"]) or case["kind"] != "str"))
 
     enc = case.get("encoding", "utf-8") if case["kind"] != "str" else "utf-8"
-    src, content, rkw = _open(None, case["kind"], ctx, tree, kw, "a.swc", enc)
+    src, content, rkw = _open(None, case["kind"], ctx, tree, kw, "a.swc", enc, case.get("preamble"))
     text = tree.to_swc(**kw)
     ctx.check(content == text, "to_swc/file-content-equals-string-form", "file differs from returned string")
     if rkw:
@@ -219,7 +260,7 @@ def run_case(case, ctx):
         ctx.fail(f"roundtrip/{cls}", f"read {back.comments!r}, expected {want_comments!r} (leading blanks aside)")
 
     # read_swc gives the same table
-    src2, _, rkw2 = _open(None, case["kind"], ctx, tree, kw, "b.swc", enc)
+    src2, _, rkw2 = _open(None, case["kind"], ctx, tree, kw, "b.swc", enc, case.get("preamble"))
     df, cm = read_swc(src2, **rkw2)
     ctx.check(df["pid"].tolist() == parents and len(df) == n, "read_swc/same-table", "read_swc differs")
     ctx.check(_strip(cm) == got_comments, "read_swc/same-comments", "comments differ between front ends")
@@ -240,5 +281,6 @@ SUBCHECKS = [
                   "offset:0": 50, "offset:1000000": 50, "source:False": 50, "source:string": 100,
                   "single-node": 10, "blank-comment": 30, "non-ascii-comment": 20, "deep-or-large": 4,
                   "ids-beyond-2^24": 150, "type-code-beyond-a-byte": 100, "comments-appended-after-construction": 200,
-                  "stored-as:utf-16": 30, "stored-as:utf-32": 30, "text-longer-than-1MiB": 4}),
+                  "stored-as:utf-16": 30, "stored-as:utf-32": 30, "text-longer-than-1MiB": 4,
+                  "written-before-then-edited-in-place": 150, "stream-positioned-after-a-preamble": 60}),
 ]
